@@ -620,7 +620,7 @@ func c20Receivers() (map[string]c20Recv, *GV) {
 func casesC20(g *Gen) []*Case {
 	var cs []*Case
 	recvs, data := c20Receivers()
-	names := []string{"f", "g", "len", "upper"}
+	names := []string{"f", "g", "len", "upper", "md5", "times10", "to_snake", "_p", "Up", "x2y"}
 	// argument lists with their canonical description (what a str function echoes)
 	argLists := []struct{ src, desc string; n int }{
 		{"", "", 0}, {"1", "i:1,", 1}, {`"s", 2.5`, "s:s,f:2.5,", 2}, {"true, nil", "b:true,nil,", 2}, {`[1, [2, "z"]], {k: 1, a: [true]}`, "[i:1,[i:2,s:z,],],{a=[b:true,],k=i:1,},", 2},
@@ -728,6 +728,12 @@ func casesC20(g *Gen) []*Case {
 			for load := 0; load <= 2; load++ {
 				mkHist("register_pairs", [][3]string{regOps[a], regOps[b]}, load, []string{"f", "len"})
 			}
+		}
+	}
+	// names with digits, underscores and capitals are names like any other: registered once, refused afterwards, callable
+	for _, nm := range []string{"md5", "times10", "to_snake_case", "_private", "UPPER", "a1b2c3", "x_", "l33t", "f0"} {
+		for _, ty := range c20Types {
+			mkHist("names_with_digits", [][3]string{{ty, nm, "0"}, {ty, nm, "1"}}, g.n(3), []string{nm, "f"})
 		}
 	}
 	// every type: same name registered for several types, in both orders
